@@ -25,7 +25,7 @@ reg("C12",
     clauses={1: "Add panicked inside the property's domain", 2: "counts differ from the partition counts",
              3: "Total differs from the number of results", 4: "counts do not sum to the number of results",
              5: "JSON rendering panicked", 6: "JSON rendering is not (bucket_i, count_i) for all buckets",
-             7: "text rendering rows are not (bucket_i, count_i) for all buckets",
+             7: "text rendering rows are not (bucket_i, count_i) for all buckets", 8: "bucket counts of a histogram filled through Metrics.Add differ from the partition counts",
              20: "accepted specification yields no bucket", 21: "first parsed bound is positive (does not cover 0)",
              22: "well-formed specification rejected", 23: "parsed bounds differ from the given bounds (+ implicit 0)"},
     assumptions=["time.ParseDuration is library code: reference model Base/Duration.v (exact fraction; float rounding of fractions is a declared don't-care)",
@@ -179,7 +179,7 @@ reg("C20",
     clauses={1: "exported label sets differ from the observed ones", 2: "bytes-in counter != sum", 3: "bytes-out counter != sum",
              4: "histogram sample count != number of results", 5: "histogram sum != total seconds",
              6: "cumulative bucket counts inconsistent with the latencies", 7: "failure-counter children differ from the (label set, message) pairs that occurred",
-             8: "failure counter != number of results with that error"},
+             8: "failure counter != number of results with that error", 9: "the registry cannot gather the metrics after the observations (inconsistent children)"},
     assumptions=["prometheus/client_golang is library code, modelled at the level of what a registry exports (additive counter vectors, cumulative histogram buckets); its atomicity under concurrent Observe is assumed and sampled (16 goroutines)",
                  "totals below 2^53 (float64 counters); histogram sum compared within 2^-30 relative (float accumulation)"],
     level_text="prom_sums_bytes, prom_sums_histogram, prom_failures, prom_failure_children and prom_perm are proved in Coq for every observation sequence (unbounded) about a Gallina model of Metrics.Observe; tied to the Go code on every run by gathering a real registry and comparing with the extracted model and with the reference sums.",
@@ -380,7 +380,7 @@ reg("C17",
          "case in 12 has a timestamp going back (outside the property, compared with the model only); non-trivial = plot cases and LTTB cases with 3 <= threshold < count",
     exhaustive="the LTTB grid only: all (count, threshold) with count <= 40, threshold <= 42 (quick) / count <= 66, threshold <= 68 (thorough)",
     clauses={1: "adding results in this order failed", 2: "the plotted points are not exactly one per result at x = ms since the attack's first request, y = latency, in the right OK/ERROR series",
-             3: "rows of a series are not sorted by x", 4: "downsampled series is not an identity / threshold-sized subsequence containing the first and last points", 5: "downsampling failed although no series is longer than a threshold of 1 or 2",
+             3: "rows of a series are not sorted by x", 4: "downsampled series is not an identity / threshold-sized subsequence containing the first and last points", 5: "downsampling failed although no series is longer than a threshold of 1 or 2", 6: "the rows of the plotted data are not sorted by x",
              10: "series at or below the threshold (or threshold 0) changed", 11: "threshold 1 or 2 with a longer series not rejected", 12: "downsampling failed or panicked", 13: "not exactly threshold points",
              14: "not a subsequence of the input", 15: "first or last point missing"},
     diffs={30: "model and implementation disagree on whether adding fails", 31: "series differ from the model's", 40: "LTTB output or requested chunk sizes differ from the model with exact rational bucket bounds"},
